@@ -155,6 +155,13 @@ func (c *c14) scenario(base *valWorld, cls planClass, maxVals uint32, execs []st
 	structural := c.structural(w, planOp.Val(), planKey.ConsAddrHex())
 
 	h := uint64(w.e.L2.Ctx.BlockHeight()) + 1
+	// plans for heights that have already passed must never fire ("at no other height")
+	if cur := uint64(w.e.L2.Ctx.BlockHeight()); cur > 1 {
+		for k, past := range []uint64{cur - 1, 1} {
+			ov := NewValKey(20 + k)
+			_ = w.e.L2.K.RegisterExecutorChangePlan(uint64(90+k), past, ov.Operator.Val(), "overdue", c.pubKeyJSON(w, ov.Pub), "overdue", []string{sim.NewAccount("overdue-exec").String()})
+		}
+	}
 	err := w.e.L2.K.RegisterExecutorChangePlan(7, h, planOp.Val(), "next-sequencer", c.pubKeyJSON(w, planKey.Pub), "info", execs)
 	run.Evaluations++
 	w.logf("register_plan(height=%d operator=op%d key=key%d executors=%d class=%s structural=%s) -> %v", h, opIdx, keyIdx, len(execs), cls, structural, err)
@@ -193,6 +200,12 @@ func (c *c14) scenario(base *valWorld, cls planClass, maxVals uint32, execs []st
 		}
 	}
 	l2 := w.e.L2
+	if (len(execs)+int(maxVals))%2 == 0 {
+		// the plan block is first executed on a branch that is thrown away (a replayed / aborted block execution)
+		sb := l2.Branch()
+		sbr := sb.EndBlock()
+		w.logf("end_block(h=%d, PLAN) executed on a discarded branch first: err=%v", l2.Ctx.BlockHeight(), sbr.EndErr)
+	}
 	br := l2.EndBlock()
 	run.Evaluations++
 	w.logf("end_block(h=%d, PLAN) updates=[%s] err=%v engine=%v", l2.Ctx.BlockHeight(), updatesString(br.Updates), br.EndErr, br.EngineErr)
@@ -265,6 +278,10 @@ func (c *c14) malformed(base *valWorld) {
 		{"proposal id 0", func() error { return k.RegisterExecutorChangePlan(0, 501, goodOp, "m", goodKey, "i", goodExec) }},
 		{"height 0", func() error { return k.RegisterExecutorChangePlan(2, 0, goodOp, "m", goodKey, "i", goodExec) }},
 		{"duplicate height", func() error { return k.RegisterExecutorChangePlan(3, 500, goodOp, "m", goodKey, "i", goodExec) }},
+		{"duplicate height, same proposal id, other payload", func() error {
+			return k.RegisterExecutorChangePlan(1, 500, NewValKey(8).Operator.Val(), "other", c.pubKeyJSON(base, NewValKey(8).Pub), "i2", []string{base.e.Executors[1].String()})
+		}},
+		{"duplicate height, identical re-registration", func() error { return k.RegisterExecutorChangePlan(1, 500, goodOp, "m", goodKey, "i", goodExec) }},
 		{"validator address not bech32", func() error { return k.RegisterExecutorChangePlan(4, 502, "nonsense", "m", goodKey, "i", goodExec) }},
 		{"validator address with account prefix", func() error {
 			return k.RegisterExecutorChangePlan(5, 503, NewValKey(9).Operator.String(), "m", goodKey, "i", goodExec)
@@ -302,13 +319,19 @@ func (c *c14) malformed(base *valWorld) {
 	}
 }
 
-func planHeights(m map[uint64]opchildtypes.ExecutorChangePlan) []uint64 {
+// planHeights renders the whole plan table (heights and contents) canonically.
+func planHeights(m map[uint64]opchildtypes.ExecutorChangePlan) []string {
 	var hs []uint64
 	for h := range m {
 		hs = append(hs, h)
 	}
 	sort.Slice(hs, func(i, j int) bool { return hs[i] < hs[j] })
-	return hs
+	var out []string
+	for _, h := range hs {
+		p := m[h]
+		out = append(out, fmt.Sprintf("%d:{id=%d val=%s key=%x execs=%v info=%s}", h, p.ProposalID, p.NextValidator.OperatorAddress, p.NextValidator.ConsensusPubkey.Value, p.NextExecutors, p.Info))
+	}
+	return out
 }
 
 func checkC14(run *mon.Run, rng *mon.Rand, thorough bool) {
